@@ -313,6 +313,19 @@ def run(ctx, prop):
         "D layer: 'filter = subsequence' axioms (cnt/sel) for filtered comprehensions; ghost inverse witnesses for permutation-hood",
         "D layer: termination is not verified",
     ]
+    # what this very run relied on: named proof rules, assumed contracts of callees, derived facts
+    rules, assumed, derived = set(), set(), set()
+    for _q, desc, _recs in results:
+        rules |= set(desc.get("rules_used", []))
+        for callee in desc.get("callee_contracts_used", []):
+            K_ = dsl.CONTRACTS.get(callee) or next((dsl.CONTRACTS[n_] for n_ in dsl.CONTRACTS if n_.split("@")[0] == callee), None)
+            if K_ is not None and K_.assumed:
+                assumed.add(callee)
+            if K_ is not None and K_.derived is not None:
+                derived.add(f"{K_.derived_rule} ({callee})")
+    ctx.assumptions += [f"D rule used: {r_}" for r_ in sorted(rules)]
+    ctx.assumptions += [f"D ASSUMED contract (function not verified; decided by the bounded layer): {a_}" for a_ in sorted(assumed)]
+    ctx.assumptions += [f"D derived fact assumed by a definitional rule: {d_}" for d_ in sorted(derived)]
     ctx.notes["deductive"] = {"functions": len(names), "obligations": n_all, "discharged": n_disc}
 
 
